@@ -186,7 +186,20 @@ func rawDoH(n *simnet.Net, addr string, ip netip.Addr, raw []byte) (status int, 
 }
 
 func doqExchange(n *simnet.Net, addr string, ip netip.Addr, msgs [][]byte) (outs []probeOutcome) {
-	for _, body := range rawDoQ(n, addr, ip, msgs) {
+	return doqExchangeFramed(n, addr, ip, msgs, false)
+}
+
+// doqExchangeFramed is doqExchange for messages that already carry their
+// (possibly wrong) length prefix.
+func doqExchangeFramed(n *simnet.Net, addr string, ip netip.Addr, msgs [][]byte, framed bool) (outs []probeOutcome) {
+	if !framed {
+		var fr [][]byte
+		for _, m := range msgs {
+			fr = append(fr, withPrefix(m))
+		}
+		msgs = fr
+	}
+	for _, body := range rawDoQFramed(n, addr, ip, msgs) {
 		if body != nil {
 			outs = append(outs, describeFrames([][]byte{body}, "stream end"))
 		} else {
@@ -200,6 +213,16 @@ func doqExchange(n *simnet.Net, addr string, ip netip.Addr, msgs [][]byte) (outs
 // rawDoQ sends each message on a connection of its own and returns the
 // response bodies without the length prefix (nil: no complete response).
 func rawDoQ(n *simnet.Net, addr string, ip netip.Addr, msgs [][]byte) (outs [][]byte) {
+	var fr [][]byte
+	for _, m := range msgs {
+		fr = append(fr, withPrefix(m))
+	}
+
+	return rawDoQFramed(n, addr, ip, fr)
+}
+
+// rawDoQFramed sends each framed message on a connection of its own.
+func rawDoQFramed(n *simnet.Net, addr string, ip netip.Addr, msgs [][]byte) (outs [][]byte) {
 	pc, err := n.DialPacket(n.ClientAddr(ip))
 	if err != nil {
 		panic(err)
@@ -226,7 +249,7 @@ func rawDoQ(n *simnet.Net, addr string, ip netip.Addr, msgs [][]byte) (outs [][]
 
 			continue
 		}
-		_, _ = st.Write(withPrefix(raw))
+		_, _ = st.Write(raw)
 		_ = st.Close()
 		_ = st.SetReadDeadline(time.Now().Add(100 * time.Second))
 		body, rerr := io.ReadAll(st)
@@ -320,8 +343,10 @@ func runC06(s *kernel.Sim, _ string) {
 			streamProbe(tk, n, addrDoTB, clientTLS("dns.sim.test"), [][]byte{framed}),
 		})
 		pairs = append(pairs, pair{"doh", dohProbe(n, addrDoH, aip, raw), dohProbe(n, addrDoHB, aip, raw)})
-		qa := doqExchange(n, addrDoQ, aip, [][]byte{raw})
-		qb := doqExchange(n, addrDoQB, aip, [][]byte{raw})
+		// On DoQ the same framing variants: the prefix may announce more (or
+		// less) than the stream carries before it ends.
+		qa := doqExchangeFramed(n, addrDoQ, aip, [][]byte{framed}, true)
+		qb := doqExchangeFramed(n, addrDoQB, aip, [][]byte{framed}, true)
 		pairs = append(pairs, pair{"doq", qa[0], qb[0]})
 
 		for _, pr := range pairs {
